@@ -791,6 +791,7 @@ func runC20(c *Ctx) {
 		checkBroadcastErr(c, "Z5", bcast)
 	}
 	checkStatusIsFailureWhereDataIsExpected(c, "Z6")
+	checkUnknownIDEndsSession(c, "Z7")
 }
 
 // clientAxioms adds: data returned by clientConn.sendPacket with a nil error, and result.data of a
